@@ -83,13 +83,16 @@ TokPool ==
   {Id("a"), Id("_x1"), Id("$"), LTok("Identifier", <<Sym("E9"), "b">>, <<Sym("E9"), "b">>),
    LTok("Identifier", <<Sym("U4E16")>>, <<Sym("U4E16")>>),
    Op("in"), Op("or"), Op("and"), Op("not"), Op("matches"), Op("not in"),
+   LTok("Operator", <<"n", "o", "t", LF, " ", "i", "n">>, Chars("not in")),       \* the two-word operator across a line break
+   LTok("Operator", <<"n", "o", "t", Sym("TAB"), Sym("NBSP"), "i", "n">>, Chars("not in")),
    Nm("1"), Nm("0x1f"), Nm("1.5"), Nm(".5"), Nm("1_0"),
    LTok("String", <<SQ, "a", Sym("E9"), SQ>>, <<"a", Sym("E9")>>),
    LTok("String", <<DQ, Sym("U1F600"), BSL, "n", DQ>>, <<Sym("U1F600"), LF>>),
    Op("+"), Op("-"), Op("*"), Op("/"), Op("%"), Op("**"), Op("=="), Op("!="), Op("<="), Op(">="), Op("<"), Op(">"),
    Op("&&"), Op("||"), Op("!"), Op("?"), Op(":"), Op(","), Op("#"), Op("."), Op(".."), Op("?."),
    Br("("), Br(")"), Br("["), Br("]"), Br("{"), Br("}")}
-SepPool == {<<" ">>, <<LF>>, <<Sym("TAB")>>, <<Sym("CR"), LF>>, <<" ", " ">>, <<" ", LF, " ", " ">>, <<LF, LF, Sym("TAB")>>}
+SepPool == {<<" ">>, <<LF>>, <<Sym("TAB")>>, <<Sym("CR"), LF>>, <<" ", " ">>, <<" ", LF, " ", " ">>, <<LF, LF, Sym("TAB")>>,
+            <<Sym("FF")>>, <<Sym("VT"), Sym("NBSP")>>}
 IsSymOp(t) == t.k = "Operator" /\ ~IsAlpha(t.s[1])
 (* may two tokens be written without a separator (conservative: only the clearly safe adjacencies) *)
 SafeAdjacent(a, b) ==
